@@ -202,8 +202,17 @@ pub fn gen_plan(seed: u64) -> KPlan {
     let span = owd[0] + owd[1] + pto_us + 2 * max_delay + (burst_loss + 2) * (gap[0] + gap[1]) + 4 * jitter;
     let in_flight = span / min_gap + 4;
     let t = 2 * in_flight + r.range(8, 64);
-    let window = r.range(2, 40);
-    let conf_limit = t + window;
+    let mut window = r.range(2, 40);
+    let mut conf_limit = t + window;
+    // one plan in eight: a key whose confidentiality limit is smaller than the update window.
+    // "starts a key update before reaching the limit" then means: right away. (The DESIGN 3.15
+    // precondition cannot hold here; such runs are stopped once an update is in progress and
+    // the promoted key asks for the next one, and are never counted as passes. What they can
+    // still show is an endpoint that never starts an update and runs its key into the limit.)
+    if family != "silent_peer" && r.chance(1, 8) {
+        // (the limit itself stays well above the packets in flight, see above)
+        window = conf_limit + r.range(1, 100);
+    }
     let integ_limit = r.range(1, 24);
     let updates = r.range(2, 7);
     let n = (t + window) * updates;
